@@ -24,38 +24,31 @@ Theorem C01_delivered_at_most_once : forall c rs st, reach c rs st -> forall r,
 Proof. exact delivered_at_most_once. Qed.
 Print Assumptions C01_delivered_at_most_once.
 
-(* FINDING (class tcp-reorder-push-after-close).  "In the order written" is FALSE of the code as it is:
-   destroyWriter closes the asyncprocessor before it sets writer = nil; RingBuffer.Close clears the slots
-   but keeps readIndex/writeIndex; packets pushed in that window are accepted and run by the consumer
-   starting at the stale read index.  Witness: capacity 4, two packets queued at Close, four pushed after
-   it: the TCP reader receives write indices 4, 5, 2, 3. *)
-Theorem C01_delivered_in_order_refuted :
-  exists c rs steps st r m f,
-    readers_ok rs /\ exec c (init rs) steps = Some st /\ In r (s_readers st) /\ r_tcp r = true /\
-    didxs (filter (same_mf m f) (r_deliv r)) = [4; 5; 2; 3] /\
-    ~ sinc (didxs (filter (same_mf m f) (r_deliv r))).
-Proof. exact delivered_in_order_refuted. Qed.
-Print Assumptions C01_delivered_in_order_refuted.
+(* In the order written - full strength for TCP-based transports (interleaved, tunnels, TLS): per media and
+   format the received packets are an order-preserving subsequence of the written ones.
+   (Before commit e586e4c "detach the writer before closing it" this was false: packets pushed between
+   asyncprocessor.Close and writer = nil were run from the ring buffer's stale read index; the old model and
+   its refutation witness - a TCP reader receiving write indices 4,5,2,3 - are in history/.  The harness
+   keeps the deterministic reproduction as a regression case, class tcp-reorder-push-after-close.) *)
+Theorem C01_tcp_delivered_is_subsequence : forall c rs st r m f s,
+  reach c rs st -> In r (s_readers st) -> r_tcp r = true -> ssrc_of c m f = Some s ->
+  Subseq (deliv_mf r m f) (map (fun p => set_ssrc p s) (written_mf (s_written st) m f)).
+Proof. exact tcp_delivered_is_subsequence. Qed.
+Print Assumptions C01_tcp_delivered_is_subsequence.
 
-Theorem C01_delivered_is_subsequence_refuted :
-  exists c rs steps st r m f s,
-    readers_ok rs /\ exec c (init rs) steps = Some st /\ In r (s_readers st) /\ ssrc_of c m f = Some s /\
-    ~ Subseq (deliv_mf r m f) (map (fun p => set_ssrc p s) (written_mf (s_written st) m f)).
-Proof. exact delivered_is_subsequence_refuted. Qed.
-Print Assumptions C01_delivered_is_subsequence_refuted.
+Theorem C01_tcp_delivered_in_order : forall c rs st r m f,
+  reach c rs st -> In r (s_readers st) -> r_tcp r = true ->
+  sinc (didxs (filter (same_mf m f) (r_deliv r))).
+Proof. exact tcp_delivered_in_order. Qed.
+Print Assumptions C01_tcp_delivered_in_order.
 
-(* What does hold (strongest form): per media and format the received packets are an order-preserving
-   subsequence of the written ones among the deliveries without the ghost flag d_late ([ordered_part]):
-     - TCP reader: d_late marks the packets that were pushed while its writer was closed but not yet nil.
-       Such a writer state exists only while a PAUSE / TEARDOWN / close of that very reader is being
-       processed (C01_closed_writer_only_when_stopping), and a TCP reader that is never asked to stop
-       receives everything in order (C01_tcp_complete).
-     - UDP reader: d_late marks what is delivered from the first position reset of its receiver on
-       (rtpreceiver gives up its position after more than BufferSize consecutive packets older than the
-       last delivered one and restarts from such a packet).  Until then everything is in order
-       (C01_udp_in_order_until_reset), and a reset needs that many consecutive late arrivals
-       (C01_udp_reset_needs_late_run) - on loopback only the reordering above produces them.
-   Missing for the full statement: exactly the flagged deliveries. *)
+(* UDP (and, uniformly, every reader): the same statement for the deliveries without the ghost flag d_late.
+   Over TCP no delivery carries it (that is the two theorems above).  Over UDP it marks what is delivered
+   from the first position reset of the reader's rtpreceiver on: the receiver gives up its position after
+   more than BufferSize consecutive packets older than the last delivered one and restarts from such a packet.
+   PARTIAL: missing for the full UDP statement are exactly the deliveries after such a reset; until then
+   everything is in order (C01_udp_in_order_until_reset) and a reset needs that many consecutive late arrivals
+   (C01_udp_reset_needs_late_run), which loopback never produces by itself. *)
 Theorem C01_delivered_is_subsequence_partial : forall c rs st, reach c rs st -> forall r m f s,
   In r (s_readers st) -> ssrc_of c m f = Some s ->
   Subseq (deliv_mf_ord r m f) (map (fun p => set_ssrc p s) (written_mf (s_written st) m f)).
@@ -67,6 +60,7 @@ Theorem C01_delivered_in_order_partial : forall c rs st, reach c rs st -> forall
 Proof. exact delivered_in_order_partial. Qed.
 Print Assumptions C01_delivered_in_order_partial.
 
+(* a detached (nil but not yet closed) writer exists only while a stop of that reader is being processed *)
 Theorem C01_closed_writer_only_when_stopping : forall c rs st, reach c rs st -> forall r b,
   In r (s_readers st) -> r_w r = WClosed b -> r_ph r = PhStopReq.
 Proof. exact closed_writer_only_when_stopping. Qed.
@@ -91,11 +85,11 @@ Theorem C01_announced_ssrc : forall c rs st, reach c rs st -> forall r d m s,
 Proof. exact announced_ssrc. Qed.
 Print Assumptions C01_announced_ssrc.
 
-(* Over TCP all formats of all medias arrive in the one global order of writing (same restriction). *)
-Theorem C01_tcp_global_order_partial : forall c rs st, reach c rs st -> forall r,
-  In r (s_readers st) -> r_tcp r = true -> sinc (didxs (nl_d (r_deliv r))).
-Proof. exact tcp_global_order_partial. Qed.
-Print Assumptions C01_tcp_global_order_partial.
+(* Over TCP all formats of all medias arrive in the one global order of writing. *)
+Theorem C01_tcp_global_order : forall c rs st r,
+  reach c rs st -> In r (s_readers st) -> r_tcp r = true -> sinc (didxs (r_deliv r)).
+Proof. exact tcp_global_order. Qed.
+Print Assumptions C01_tcp_global_order.
 
 (* A UDP reader whose receiver never reset its position has received every format in order. *)
 Theorem C01_udp_in_order_until_reset : forall c rs st r m f,
@@ -116,8 +110,7 @@ Print Assumptions C01_udp_reset_needs_late_run.
    transport or in the queue, and those explicitly discarded. *)
 Theorem C01_conservation : forall c rs st, reach c rs st -> forall r,
   In r (s_readers st) ->
-  Permutation (r_hist r)
-    (didxs (r_deliv r) ++ r_lost r ++ idxs (r_wire r) ++ idxs (r_queue r) ++ idxs (ritems (r_ring r))).
+  Permutation (r_hist r) (didxs (r_deliv r) ++ r_lost r ++ idxs (r_wire r) ++ idxs (r_queue r)).
 Proof. exact conservation. Qed.
 Print Assumptions C01_conservation.
 
@@ -139,7 +132,7 @@ Proof. exact write_while_playing. Qed.
 Print Assumptions C01_write_while_playing.
 
 (* Over TCP an accepted packet is discarded only by a step of an explicit stop (PAUSE / TEARDOWN / close
-   in progress): closing the writer, dropping the writer, or the client closing its end.  These are the
+   in progress): asyncprocessor.Close dropping what is still queued, or the client closing its end.  These are the
    "packets in flight at PAUSE/TEARDOWN". *)
 Theorem C01_tcp_loss_only_when_stopping : forall c st s st' k r r',
   sinv c st -> step c st s = Some st' ->
@@ -216,3 +209,20 @@ Example C01_example_gap_rejected :
       SWrite 1 (ex_p 10 8) []; SWrite 1 (ex_p 11 8) []; SCtl CDrain 0; SCtl CDrain 0;
       SArrive 0 0 (Some (mkObs 1 0 1 (set_ssrc (ex_p 11 8) 2000))) ] 0 = Some 9.
 Proof. vm_compute. reflexivity. Qed.
+
+(* regression for e586e4c: the schedule that used to reorder (two packets queued, writer detached, four more
+   written before the processor is closed, consumer still alive) now delivers the two queued packets in order
+   and nothing else: what is written to a detached writer is dropped without a queue-full report *)
+Example C01_regression_write_to_detached_writer :
+  exists st, exec (mkCfg 4 64 [[(96, 7)]]) (init [new_reader true [(0, 0)]])
+    [ SCtl CPlayReq 0; SCtl CCreate 0; SCtl CActivate 0; SCtl CStart 0; SCtl CPlayDone 0;
+      SWrite 0 (ex_p 100 96) []; SWrite 0 (ex_p 101 96) [];
+      SCtl CStopReq 0; SCtl CCloseW 0;
+      SWrite 0 (ex_p 102 96) []; SWrite 0 (ex_p 103 96) []; SWrite 0 (ex_p 104 96) []; SWrite 0 (ex_p 105 96) [];
+      SWrite 0 (ex_p 106 96) [];
+      SCtl CDrain 0; SCtl CDrain 0;
+      SArrive 0 0 (Some (mkObs 0 0 0 (set_ssrc (ex_p 100 96) 7)));
+      SArrive 0 0 (Some (mkObs 0 0 1 (set_ssrc (ex_p 101 96) 7)));
+      SCtl CNilW 0; SCtl CDeact 0; SCtl CStopDone 0 ] = Some st /\
+    map (fun r => (didxs (r_deliv r), r_hist r, r_lost r)) (s_readers st) = [([0; 1], [0; 1], [])].
+Proof. vm_compute. eexists. split; reflexivity. Qed.
